@@ -1,7 +1,9 @@
-(* C04: the hypothesis of the morphism round trip is necessary - a two-iso witness. *)
-From Coq Require Import List String Bool Arith ZArith.
-From Golem Require Import Optics.GenPrelude Optics.Examples.
-From GolemGen Require Import GenHseq GenOptics.
+(* C04: the hypothesis of the morphism round trip is necessary - a two-iso witness;
+   the hypotheses of the full theorems (join_frame, shapeN_nfold, morphism_roundtrip) are satisfiable. *)
+From Coq Require Import List String Bool Arith ZArith Lia.
+From Golem Require Import Optics.GenPrelude Optics.Examples Optics.LensFacts Optics.CombFacts Optics.FocusFacts
+  Optics.GenShapeFacts.
+From GolemGen Require Import GenHseq GenOptics GenShape.
 Import ListNotations.
 Open Scope res_scope.
 
@@ -22,4 +24,132 @@ Lemma morphism_needs_disjoint_targets :
 Proof.
   eexists. eexists. split; [vm_compute; reflexivity|]. split; [vm_compute; reflexivity|].
   vm_compute. intro H. discriminate H.
+Qed.
+
+Ltac in_cases H :=
+  repeat (destruct H as [H|H]; [try discriminate H; try (injection H as H); subst|]); try contradiction H.
+
+(* .. and that witness violates nothing but the hypothesis on target foci: every entry has a lawful source optic and a
+   focused target optic (the first hypothesis of morphism_roundtrip); the two entries differ and share the target focus *)
+Lemma w_seq_entries_ok : forall i, In (Some i) w_seq ->
+  lawful (i_sa i) 8 /\ focused (i_ta i) 8 (footprint (i_ta i)).
+Proof.
+  intros i H. vm_compute in H. in_cases H; (split; [exact (field_lawful _)|exact (field_focused _)]).
+Qed.
+
+Lemma w_seq_targets_overlap : exists i j, w_seq = [Some i; Some j] /\ i <> j /\
+  footprint (i_ta i) = [(0, 8)] /\ footprint (i_ta j) = [(0, 8)].
+Proof.
+  eexists. eexists. split; [vm_compute; reflexivity|].
+  split; [intro H; discriminate H|]. split; reflexivity.
+Qed.
+
+(* join_frame needs a positional outer optic.  type KP struct { X, Y int8 }; type KO struct { P KP }: the outer optic is
+   the field P seen through a conversion that swaps its two bytes, the inner optic the field X (byte 0 of the value).
+   The framed statement of join_frame with offset 0 would be "only byte 0 of the arena changes"; byte 1 does. *)
+Definition KP := golayout (TStruct "main.KP" 0 [fld "X" t_int8; fld "Y" t_int8]).
+Definition KO := golayout (TStruct "main.KO" 0 [fld "P" KP]).
+
+Definition swap_join : res optic :=
+  a <- ForProduct1 KO KP [] ;; b <- ForProduct1 KP t_int8 ["X"%string] ;; Ok (Join (BiMap a (@rev byte) (@rev byte)) b).
+
+Lemma join_frame_needs_positional : exists a b,
+  swap_join = Ok (Join (BiMap a (@rev byte) (@rev byte)) b) /\
+  lawful (BiMap a (@rev byte) (@rev byte)) 2 /\ framed (BiMap a (@rev byte) (@rev byte)) 2 [(0, 2)] /\
+  framed b 1 [(0, 1)] /\
+  ~ framed (Join (BiMap a (@rev byte) (@rev byte)) b) 1 (shift 0 [(0, 1)]).
+Proof.
+  eexists. eexists. split; [vm_compute; reflexivity|]. split; [|split; [|split]].
+  - apply bimap_lawful with (nA := 2); [exact (field_lawful _)| |]; intros v Hv;
+      (split; [apply rev_involutive|rewrite rev_length; exact Hv]).
+  - apply bimap_framed with (nA := 2); [intros v Hv; rewrite rev_length; exact Hv|exact (field_framed _)].
+  - exact (field_framed _).
+  - intro F. specialize (F [1; 2]%Z 0 [7%Z] [1; 7]%Z eq_refl).
+    match type of F with ?P -> _ => assert (E : P) by (vm_compute; reflexivity) end.
+    specialize (F E 1).
+    assert (O : outside (shift 0 [(0, 1)]) 0 1) by (intros r [Hr|[]]; subst r; right; cbn; apply le_n).
+    specialize (F O). cbn in F. discriminate F.
+Qed.
+
+(* ---- the hypotheses of the full theorems are satisfiable (non-vacuity) ---------------------------------------- *)
+(* a morphism over KAB with two different isos (A -> B, B -> A), nil entries and a repeated entry *)
+Definition r_seq : list (option iso) :=
+  match ForProduct1 KAB t_int64 ["A"%string], ForProduct1 KAB t_int64 ["B"%string] with
+  | Ok a, Ok b => [None; Some (mkIso a b); None; Some (mkIso b a); Some (mkIso a b); None]
+  | _, _ => []
+  end.
+
+Lemma r_seq_entries_ok : forall i, In (Some i) r_seq ->
+  lawful (i_sa i) 8 /\ focused (i_ta i) 8 (footprint (i_ta i)).
+Proof.
+  intros i H. vm_compute in H. in_cases H; (split; [exact (field_lawful _)|exact (field_focused _)]).
+Qed.
+
+Lemma r_seq_targets_ok : forall i j, In (Some i) r_seq -> In (Some j) r_seq ->
+  i = j \/ disjoint_fp (footprint (i_ta i)) (footprint (i_ta j)).
+Proof.
+  intros i j Hi Hj. vm_compute in Hi. vm_compute in Hj. in_cases Hi; in_cases Hj;
+    first [left; reflexivity | right; apply disjointb_sound; vm_compute; reflexivity].
+Qed.
+
+(* Forward swaps A and B into the target; Inverse returns and leaves both structures as they were *)
+Lemma r_seq_runs : exists w1,
+  morphism_forward r_seq w_start = Ok w1 /\ mt w1 = (repeat 2%Z 8 ++ repeat 1%Z 8)%list /\
+  morphism_inverse r_seq w1 = Ok w1.
+Proof. eexists. split; [vm_compute; reflexivity|]. split; vm_compute; reflexivity. Qed.
+
+(* morphism_roundtrip applied to it *)
+Lemma r_seq_roundtrip : forall w1 w2, morphism_forward r_seq w_start = Ok w1 -> morphism_inverse r_seq w1 = Ok w2 ->
+  ms w2 = ms w_start /\ mt w2 = mt w1 /\
+  (forall k, 16 <= k -> nth_error (mt w2) k = nth_error (mt w_start) k).
+Proof.
+  intros w1 w2 Hf Hi.
+  destruct (morphism_roundtrip (fun _ => 8) (fun i => footprint (i_ta i)) r_seq r_seq_entries_ok r_seq_targets_ok
+              _ _ _ Hf Hi) as (A & B & _ & _ & _ & _ & F).
+  split; [exact A|]. split; [exact B|]. intros k Hk. apply F.
+  intros r Hr. vm_compute in Hr. in_cases Hr; right; cbn; lia.
+Qed.
+
+(* the hypotheses of morphism_transport hold for it, and the way back into another structure copies A and B *)
+Lemma r_seq_transport_ok : forall i, In (Some i) r_seq ->
+  focused (i_sa i) 8 (footprint (i_sa i)) /\ transports (i_sa i) (footprint (i_sa i)) /\
+  focused (i_ta i) 8 (footprint (i_ta i)).
+Proof.
+  intros i H. vm_compute in H.
+  in_cases H; (split; [exact (field_focused _)|]; split; [exact (field_transports _)|exact (field_focused _)]).
+Qed.
+
+Lemma r_seq_transport_runs : exists w1 w2,
+  morphism_forward r_seq w_start = Ok w1 /\
+  morphism_inverse r_seq (mkTwo (repeat 9%Z 16) (ps w_start) (mt w1) (pt w1)) = Ok w2 /\ ms w2 = ms w_start.
+Proof. eexists. eexists. split; [vm_compute; reflexivity|]. split; vm_compute; reflexivity. Qed.
+
+(* a shape2 over KAB: the component lenses are focused on disjoint foci, and Put returns *)
+Lemma shape2_hyps_ok : exists lens,
+  ForShape2 KAB t_int64 t_int64 ["A"; "B"]%string = Ok lens /\
+  focused (shape2_a lens) 8 [(0, 8)] /\ focused (shape2_b lens) 8 [(8, 8)] /\
+  ForallOrdPairs disjoint_fp [[(0, 8)]; [(8, 8)]] /\
+  shape2_Put lens 0 (repeat 7%Z 8) (repeat 9%Z 8) (repeat 0%Z 16) = Ok (0, (repeat 7%Z 8 ++ repeat 9%Z 8)%list).
+Proof.
+  eexists. split; [vm_compute; reflexivity|]. cbn [shape2_a shape2_b].
+  split; [exact (field_focused _)|]. split; [exact (field_focused _)|]. split.
+  - repeat constructor. apply disjointb_sound. vm_compute. reflexivity.
+  - vm_compute. reflexivity.
+Qed.
+
+(* a Join chain of depth 3 on K2 is positional: its computed footprint (the 16 bytes of S) is its frame *)
+Lemma k2_chain_framed :
+  match ForProduct1 K2 K2A [], ForProduct1 K2A K2B [], ForProduct1 K2B K2C [], ForProduct1 K2C t_string ["S"]%string with
+  | Ok a, Ok b, Ok c, Ok d =>
+      let j := Join (Join (Join a b) c) d in footprint j = [(32, 16)] /\ framed j 16 (footprint j)
+  | _, _, _, _ => False
+  end.
+Proof.
+  destruct (ForProduct1 K2 K2A []) as [a|] eqn:Ea; [|vm_compute in Ea; discriminate Ea].
+  destruct (ForProduct1 K2A K2B []) as [b|] eqn:Eb; [|vm_compute in Eb; discriminate Eb].
+  destruct (ForProduct1 K2B K2C []) as [c|] eqn:Ec; [|vm_compute in Ec; discriminate Ec].
+  destruct (ForProduct1 K2C t_string ["S"%string]) as [d|] eqn:Ed; [|vm_compute in Ed; discriminate Ed].
+  vm_compute in Ea, Eb, Ec, Ed.
+  injection Ea as Ea. injection Eb as Eb. injection Ec as Ec. injection Ed as Ed. subst a b c d.
+  split; [vm_compute; reflexivity|]. apply chain_framed. reflexivity.
 Qed.
